@@ -41,6 +41,11 @@ pub fn view_violation(v: &DnaStringSlice, m: &[u8]) -> Option<String> {
     need!((0..m.len()).all(|i| v.get(i) == m[i]), "get(i)");
     need!(v.iter().collect::<Vec<u8>>() == m && v.into_iter().collect::<Vec<u8>>() == m, "iter");
     need!(v.bytes() == m, "bytes");
+    if m.len() <= 40 {
+        if let Some(e) = vglue::iterator_laws("DnaStringSlice::iter", &|| v.iter(), m) {
+            return Some(e);
+        }
+    }
     need!(v.ascii() == asc, "ascii");
     need!(v.to_dna_string() == text, "to_dna_string {}", v.to_dna_string());
     need!(format!("{}", v) == text, "Display {}", format!("{}", v));
